@@ -318,6 +318,14 @@ impl<'tcx> Cx<'tcx> {
                             }
                         }
                     } else if let ty::Ref(_, inner, _) = cty.kind() {
+                        // a reference to a static item: name the static
+                        if let mir::Const::Val(mir::ConstValue::Scalar(mir::interpret::Scalar::Ptr(ptr, _)), _) = c.const_ {
+                            if let Some(mir::interpret::GlobalAlloc::Static(did)) =
+                                tcx.try_get_global_alloc(ptr.provenance.alloc_id())
+                            {
+                                o.push(("static", J::from(self.path(did))));
+                            }
+                        }
                         if inner.is_str() {
                             let r = std::panic::catch_unwind(std::panic::AssertUnwindSafe(|| {
                                 match c.const_.eval(tcx, env, c.span) {
